@@ -33,7 +33,10 @@ impl Stats {
       *self.discards.entry(d.clone()).or_default() += 1;
       return;
     }
-    for l in &o.labels {
+    let mut ls: Vec<&String> = o.labels.iter().collect();
+    ls.sort();
+    ls.dedup();
+    for l in ls {
       *self.labels.entry(l.clone()).or_default() += 1;
     }
     if o.nontrivial {
@@ -76,6 +79,11 @@ impl Stats {
 
 fn unknown_failures<'a>(o: &'a Outcome, known: &HashSet<String>) -> Vec<&'a super::Failure> {
   o.failures.iter().filter(|f| !known.contains(&f.sig)).collect()
+}
+
+/// developer mode (VERIF_EXPLORE=1): do not stop at failures, collect one sample per signature
+pub fn explore_mode() -> bool {
+  std::env::var("VERIF_EXPLORE").map(|v| v == "1").unwrap_or(false)
 }
 
 fn write_inflight(path: &Path, v: &Value) {
@@ -242,6 +250,16 @@ fn worker_body(prop: &'static dyn Prop, args: WorkerArgs) {
       }
     }
     let unknown = unknown_failures(&o, &known);
+    if explore_mode() {
+      let mut st = stats_cell.borrow_mut();
+      for f in unknown {
+        *st.known_hits.entry(format!("EXPLORE:{}", f.sig)).or_default() += 1;
+        if !st.failures.iter().any(|x| x["sig"].as_str() == Some(f.sig.as_str())) {
+          st.failures.push(json!({"sig": f.sig, "detail": f.detail, "artifact": art, "origin": "explore"}));
+        }
+      }
+      return Ok(());
+    }
     if let Some(f) = unknown.first() {
       failed.set(true);
       Err(TestCaseError::fail(f.sig.clone()))
